@@ -21,7 +21,11 @@ MC_ACTIONS = ["MBegin", "MChild", "MCommitChild", "MDropChild", "MCommit", "MDro
               "MPut", "MDel", "MOutIterOpen", "MOutIterNext", "MOutIterClose",
               "MGet", "MExists", "MIter", "MOutGet", "MOutExists", "MOutIter"]
 RACE_SIG = "kv:resize:stale_check:second_writer:mapfull"
-TRACE_NK = 60   # must equal NK in spec/trace/KVTrace.cfg
+# key-space size of the recorded runs; must equal NK in the trace configuration used
+TRACE_CFG = {60: "trace/KVTrace", 100: "trace/KVTrace_thorough"}
+T_ACTIONS = ["TBegin", "TPut", "TDel", "TGet", "TExists", "TIter", "TChild", "TCommitChild", "TDropChild", "TDrop",
+             "TCommit", "TCrash", "TOutGet", "TOutExists", "TOutIter", "TReset"]
+TCOUNTS = {}
 
 
 def coverage_counts(out, prefix):
@@ -118,12 +122,14 @@ def replay_behaviours(rep, wd, behs, tag="cases"):
     return info["checks"], info["actions"]
 
 
-def validate_trace(path, what):
-    r = vlib.tlc("trace/KVTrace", workers=1, coverage=False, env={"TRACE": path}, xss="1g", xmx="4g", timeout=1500)
+def validate_trace(path, what, nk=60):
+    r = vlib.tlc("trace/KVTrace", TRACE_CFG[nk], workers=1, coverage=True, env={"TRACE": path}, xss="1g", xmx="4g", timeout=1500)
     if r.finished:
+        for k, v in coverage_counts(r.out, "T").items():
+            TCOUNTS[k] = TCOUNTS.get(k, 0) + v
         return True, None, r
     if "TRACE-REJECTED" in r.out:
-        m = re.search(r'TRACE-REJECTED at event", (\d+)', r.out)
+        m = re.search(r'TRACE-REJECTED at event",\s*(\d+)', r.out)
         idx = int(m.group(1)) if m else 0
         evs = vlib.read_ndjson(path)
         ev = evs[idx - 1] if 0 < idx <= len(evs) else {"k": "eof"}
@@ -143,10 +149,10 @@ def keep_trace(path, name):
     return keep
 
 
-def run_record(rep, wd, seed, writers, min_pages, tag):
+def run_record(rep, wd, seed, writers, min_pages, tag, nk=60):
     tp = os.path.join(wd, "trace_%s.ndjson" % tag)
     args = ["kv", "record", "--dir", os.path.join(wd, "mt_" + tag), "--out", tp, "--seed", seed, "--writers", writers,
-            "--batches", 120, "--min-pages", min_pages, "--max-batches", 1200, "--nk", TRACE_NK]
+            "--batches", 120, "--min-pages", min_pages, "--max-batches", 1200, "--nk", nk]
     p = vlib.harness(args, check=False, timeout=600)
     case = {"kind": "record", "args": [str(a) for a in args[1:]]}
     if p.returncode < 0:
@@ -161,18 +167,19 @@ def run_record(rep, wd, seed, writers, min_pages, tag):
         rep.violation("kv:mt:error:%s:%s" % (e["op"], e["class"]), case, "operation failed under threads: %s" % json.dumps(e))
     if info["errors"]:
         return info
-    ok, why, _ = validate_trace(tp, "record " + tag)
+    ok, why, _ = validate_trace(tp, "record " + tag, nk)
     if not ok:
         keep = keep_trace(tp, "C18_trace_%s_%d.ndjson" % (tag, seed))
-        rep.violation("kv:trace:%s" % why["event"].get("k"), {"kind": "trace", "trace": keep, "rejected": why, "record": case},
+        rep.violation("kv:trace:%s" % why["event"].get("k"), {"kind": "trace", "trace": keep, "nk": nk, "rejected": why, "record": case},
                       "recorded event not allowed by KV.tla: #%d %s" % (why["index"], json.dumps(why["event"])[:400]))
     info["trace"] = tp
+    info["nk"] = nk
     return info
 
 
 def run_crash(rep, wd, seed, runs):
     tp = os.path.join(wd, "crash.ndjson")
-    args = ["kv", "crash", "--dir", os.path.join(wd, "crash"), "--out", tp, "--seed", seed, "--runs", runs, "--nk", TRACE_NK]
+    args = ["kv", "crash", "--dir", os.path.join(wd, "crash"), "--out", tp, "--seed", seed, "--runs", runs, "--nk", 60]
     p = vlib.harness(args, timeout=900)
     info = json.loads(p.stdout.strip().splitlines()[-1])
     case = {"kind": "crash", "args": [str(a) for a in args[1:]]}
@@ -187,7 +194,7 @@ def run_crash(rep, wd, seed, runs):
     if not ok:
         keep = keep_trace(tp, "C18_crash_%d.ndjson" % seed)
         mode = (why.get("run") or {}).get("mode", "?")
-        rep.violation("kv:crash:contents:%s:%s" % (mode, why["event"].get("k")), {"kind": "trace", "trace": keep, "rejected": why},
+        rep.violation("kv:crash:contents:%s:%s" % (mode, why["event"].get("k")), {"kind": "trace", "trace": keep, "nk": 60, "rejected": why},
                       "after abort() %s commit the reopened store is neither... expected exactly the %s-batch map: #%d %s"
                       % (mode, "pre" if mode == "before" else "post", why["index"], json.dumps(why["event"])[:300]))
     info["trace"] = tp
@@ -198,8 +205,13 @@ def run_race(rep, wd):
     """Head-room probe (two writers, both batches far below 10 % of the map)."""
     res = {}
     for mode in ("control", "raced"):
-        p = vlib.harness(["kv", "race", "--dir", os.path.join(wd, "race"), "--mode", mode], timeout=120)
-        res[mode] = json.loads(p.stdout.strip().splitlines()[-1])
+        p = vlib.harness(["kv", "race", "--dir", os.path.join(wd, "race"), "--mode", mode], timeout=120, check=False)
+        try:
+            res[mode] = json.loads(p.stdout.strip().splitlines()[-1])
+        except Exception:
+            # the probe is best effort (it depends on timing and on the exact fill level): never an error
+            shutil.rmtree(os.path.join(wd, "race"), ignore_errors=True)
+            return {"inconclusive": "probe %s run ended with rc=%s" % (mode, p.returncode)}
     shutil.rmtree(os.path.join(wd, "race"), ignore_errors=True)
     c, r = res["control"], res["raced"]
     if c["writer_a"] or c["writer_b"]:
@@ -216,7 +228,7 @@ def run_race(rep, wd):
     return res
 
 
-def selftest(rep, wd, behs, trace_path):
+def selftest(rep, wd, behs, trace_path, nk):
     """The binding must be able to fail: a wrong expectation and a corrupted recorded field are rejected."""
     b = json.loads(json.dumps(next(x for x in behs if any(s["a"]["k"] == "Commit" and s["out"] != [[], []] for s in x))))
     i = next(i for i, s in enumerate(b) if s["a"]["k"] == "Commit" and s["out"] != [[], []])
@@ -238,7 +250,7 @@ def selftest(rep, wd, behs, trace_path):
     evs[j]["res"] = evs[j]["res"][1:]                          # the iterator "skipped" its first key
     bad = os.path.join(wd, "selftest_trace.ndjson")
     vlib.write_ndjson(bad, evs)
-    ok, why, _ = validate_trace(bad, "selftest")
+    ok, why, _ = validate_trace(bad, "selftest", nk)
     if ok or why["index"] != j + 1:
         raise ToolError("selftest: a corrupted iterator observation was not rejected at its event (%s)" % (why,))
     return {"corrupted_expectation_rejected": True, "corrupted_trace_rejected_at": j + 1}
@@ -250,13 +262,13 @@ def do_replay(rep, wd, obj):
     if kind == "behaviour":
         replay_behaviours(rep, wd, [case["behaviour"]], tag="replay")
     elif kind == "trace":
-        ok, why, _ = validate_trace(case["trace"], "replay")
+        ok, why, _ = validate_trace(case["trace"], "replay", case.get("nk", 60))
         if not ok:
             rep.violation(obj["signature"], case, json.dumps(why)[:600])
     elif kind == "record":
         a = case["args"]
         g = lambda k: int(a[a.index(k) + 1])
-        run_record(rep, wd, g("--seed"), g("--writers"), g("--min-pages"), "replay")
+        run_record(rep, wd, g("--seed"), g("--writers"), g("--min-pages"), "replay", g("--nk"))
     elif kind == "crash":
         a = case["args"]
         g = lambda k: int(a[a.index(k) + 1])
@@ -299,11 +311,12 @@ def run(tier, replay):
 
     # (B1) threads + map growth
     recs = []
-    plan = [(seed * 10 + 1, 2, 480, "w2"), (seed * 10 + 2, 1, 480, "w1")]
+    plan = [(seed * 10 + 1, 2, 480, "w2", 60), (seed * 10 + 2, 1, 480, "w1", 60)]
     if thorough:
-        plan = [(seed * 10 + i, 2 if i % 3 else 1, 700 if i % 2 else 480, "r%d" % i) for i in range(1, 7)]
-    for s, writers, pages, tag in plan:
-        info = run_record(rep, wd, s, writers, pages, tag)
+        # NK = 100: enough live data for a third resize (map 5 MiB)
+        plan = [(seed * 10 + i, 2 if i % 3 else 1, 740 if i % 2 else 480, "r%d" % i, 100 if i % 2 else 60) for i in range(1, 7)]
+    for s, writers, pages, tag, nk in plan:
+        info = run_record(rep, wd, s, writers, pages, tag, nk)
         if info is None or info.get("errors"):
             break
         if not info.get("map_size") or info["map_size"] <= 1048576:
@@ -317,10 +330,14 @@ def run(tier, replay):
     # (B2) process death around commit()
     crash = run_crash(rep, wd, seed, 24 if thorough else 8)
 
-    st = selftest(rep, wd, behs, recs[0]["trace"]) if recs and not rep.violations else None
+    st = selftest(rep, wd, behs, recs[0]["trace"], recs[0]["nk"]) if recs and not rep.violations else None
 
     # (P) stale head-room check with two writers
     race = run_race(rep, wd)
+
+    never = [a for a in T_ACTIONS if TCOUNTS.get(a, 0) == 0]
+    if never and not rep.violations:
+        raise ToolError("trace-specification actions never taken (vacuous validation): %s" % never)
 
     sample_b = next((b for b in behs if max(s["d"] for s in b) >= 3 and any(s["a"]["k"] == "Commit" for s in b)), behs[0])
     rep.coverage = {
@@ -335,10 +352,11 @@ def run(tier, replay):
         "behaviours_replayed": len(behs), "behaviours_systematic": nsys, "behaviours_random_walks": nsim,
         "behaviours_reaching_depth_3": deep,
         "replay_read_comparisons": checks, "replayed_action_counts": replayed_actions,
-        "mt_runs": [{k: r[k] for k in ("events", "batches", "commits", "concurrent_observations", "map_size",
+        "mt_runs": [{k: r[k] for k in ("events", "batches", "commits", "concurrent_observations", "map_size", "nk",
                                        "data_file_bytes", "max_batch_growth_pages", "wall_ms", "defdb")} for r in recs],
         "map_resizes_forced": [{1: 0, 2: 1, 3: 2, 4: 3, 5: 3}.get(r["map_size"] // 1048576, 4) for r in recs],
         "crash_runs": len(crash["runs"]), "crash_trace_events": crash["events"],
+        "trace_action_counts": dict(TCOUNTS),
         "headroom_probe": race,
         "selftest": st,
         "checker_cmd": "tlc mc/MC_KV (%s); h_kv replay; h_kv record + tlc trace/KVTrace; h_kv crash + tlc trace/KVTrace; h_kv race" % ",".join(cfgs),
